@@ -243,6 +243,10 @@ Section Driver.
     let y := Qcsum (map (fun r => cy r * area r) rs) / a in
     Ok (map (shift (fst c - x) (snd c - y)) rs).
 
+  (* the area-weighted centre of the rectangles, as recenter_rectangles computes it *)
+  Definition gx (rs : list Rect) : Qc := Qcsum (map (fun r => cx r * area r) rs) / rects_area rs.
+  Definition gy (rs : list Rect) : Qc := Qcsum (map (fun r => cy r * area r) rs) / rects_area rs.
+
   (* what the last two loops of spectral_layout do to one module, given its coordinate *)
   Definition place (W H : Qc) (m : smod) (x y : Qc) : res smod :=
     let c := (x + W * half, y + H * half) in
@@ -285,29 +289,125 @@ Section Driver.
 
   Variable radius_of : smod -> Qc.         (* sqrt(area / pi) *)
 
-  Definition spectral_layout (W H : Qc) (nfloorplans : nat) (nl : snet) : res snet :=
+  Definition has_centre (m : smod) : bool := match s_centre m with Some _ => true | None => false end.
+
+  (* ---------------- the Spectral object: what __init__/_build_graph store, what a call changes ----------------
+     _adj, _mass (here: the radii), _fixed_modules and _centers are computed ONCE, when the object is
+     built; spectral_layout reads them on every call.  A call with nfloorplans > 0 overwrites the
+     _centers entries of the movable modules by -1 (and they stay -1 for every later call); a call in
+     init mode (nfloorplans = 0) reads _centers as they are - NOT the centres the modules have now.
+     The modules themselves are updated by every call (centres assigned, hard rectangles recentred,
+     centres of hard non-terminal modules dropped). *)
+  Record sess : Type := mkSess {
+    ss_mods : list smod; ss_adj : list (list (nat * Qc)); ss_nets : B;
+    ss_fx : list bool;            (* _fixed_modules *)
+    ss_radius : list Qc;          (* sqrt(_mass[i] / pi) *)
+    ss_cx : list Qc; ss_cy : list Qc }.   (* _centers *)
+
+  (* Spectral.__init__: "if m.is_fixed: assert m.center is not None" *)
+  Definition sess_init (nl : snet) : res sess :=
     let ms := s_mods nl in
-    if Nat.leb (List.length ms) 2 then AssertFail else
-    if Nat.eqb nfloorplans 0 && negb (forallb (fun m => match s_centre m with Some _ => true | None => false end) ms)
-    then AssertFail else
-    if negb (forallb (fun m => negb (s_fixed m) || match s_centre m with Some _ => true | None => false end) ms)
-    then AssertFail else
-    let inix := map (if Nat.eqb nfloorplans 0 then cx_of else forget cx_of) ms in
-    let iniy := map (if Nat.eqb nfloorplans 0 then cy_of else forget cy_of) ms in
-    let fx := map s_fixed ms in
-    let radius := map radius_of ms in
-    let wl c := wirelength (s_adj nl) [fst c; snd c] in
+    if negb (forallb (fun m => negb (s_fixed m) || has_centre m) ms) then AssertFail else
+    Ok (mkSess ms (s_adj nl) (s_nets nl) (map s_fixed ms) (map radius_of ms) (map cx_of ms) (map cy_of ms)).
+
+  (* "Remove centers of the non-fixed nodes": if not self._fixed_modules[i]: self._centers[.][i] = -1.0 *)
+  Fixpoint wipe (fx : list bool) (cs : list Qc) : list Qc :=
+    match fx, cs with
+    | f :: fx', c :: cs' => (if f then c else - (1)) :: wipe fx' cs'
+    | _, _ => cs
+    end.
+
+  (* spectral_layout once _centers is settled: the trials, the selection, the placement *)
+  Definition layout_core (W H : Qc) (nfloorplans : nat) (ms : list smod) (adj : list (list (nat * Qc)))
+             (fx : list bool) (radius inix iniy : list Qc) : res (list smod) :=
+    if Nat.leb (List.length radius) 2 then AssertFail else
+    if Nat.eqb nfloorplans 0 && negb (forallb has_centre ms) then AssertFail else
+    let wl c := wirelength adj [fst c; snd c] in
     match trials wl (fun tr => layout_die tr W H radius fx inix iniy)
                  (if Nat.eqb nfloorplans 0 then 1 else nfloorplans) 0 None with
-    | Ok (Some (c, _)) =>
-        match place_all W H ms (fst c) (snd c) with
-        | Ok ms' => Ok (mkSnet ms' (s_adj nl) (s_nets nl))
+    | Ok (Some (c, _)) => place_all W H ms (fst c) (snd c)
+    | Ok None => AssertFail
+    | EmptyMin => EmptyMin | ZeroDiv => ZeroDiv | AssertFail => AssertFail
+    end.
+
+  (* one call of spectral_layout on the object in state [s] *)
+  Definition sess_centres (nfloorplans : nat) (s : sess) : list Qc * list Qc :=
+    if Nat.eqb nfloorplans 0 then (ss_cx s, ss_cy s) else (wipe (ss_fx s) (ss_cx s), wipe (ss_fx s) (ss_cy s)).
+  Definition sess_step (W H : Qc) (nfloorplans : nat) (s : sess) : res sess :=
+    let cs := sess_centres nfloorplans s in
+    match layout_core W H nfloorplans (ss_mods s) (ss_adj s) (ss_fx s) (ss_radius s) (fst cs) (snd cs) with
+    | Ok ms' => Ok (mkSess ms' (ss_adj s) (ss_nets s) (ss_fx s) (ss_radius s) (fst cs) (snd cs))
+    | EmptyMin => EmptyMin | ZeroDiv => ZeroDiv | AssertFail => AssertFail
+    end.
+
+  (* Spectral(netlist).spectral_layout(shape, nfloorplans): one call on a fresh object *)
+  Definition spectral_layout (W H : Qc) (nfloorplans : nat) (nl : snet) : res snet :=
+    match sess_init nl with
+    | Ok s =>
+        match sess_step W H nfloorplans s with
+        | Ok s' => Ok (mkSnet (ss_mods s') (ss_adj s') (ss_nets s'))
         | EmptyMin => EmptyMin | ZeroDiv => ZeroDiv | AssertFail => AssertFail
         end
-    | Ok None => AssertFail
     | EmptyMin => EmptyMin | ZeroDiv => ZeroDiv | AssertFail => AssertFail
     end.
 End Driver.
 
 Arguments smod : clear implicits.
 Arguments snet : clear implicits.
+Arguments sess : clear implicits.
+
+(* ------------------------------------------------------------------ several calls on one object *)
+(* every call has its own die, trial count and (abstract) random start / eigen-iteration *)
+Record call : Type := mkCall {
+  c_W : Qc; c_H : Qc; c_nf : nat;
+  c_rnd : nat -> nat -> nat -> Qc;
+  c_produce : nat -> nat -> nat -> list (list Qc) -> list Qc -> list Qc;
+  c_niter : nat -> nat -> nat }.
+
+Fixpoint sess_run {A B : Type} (thr : Qc) (calls : list call) (s : sess A B) : res (sess A B) :=
+  match calls with
+  | [] => Ok s
+  | c :: rest =>
+      match sess_step thr (c_rnd c) (c_produce c) (c_niter c) (c_W c) (c_H c) (c_nf c) s with
+      | Ok s' => sess_run thr rest s'
+      | e => e
+      end
+  end.
+
+(* ------------------------------------------------------------------ a hard module driven from outside *)
+(* Module.center = p (public setter; also p.x = .. on the Point the module holds), Module.add_rectangle(r),
+   in-place edits of a rectangle, Module.recenter_rectangles() in any order on one movable hard module *)
+Inductive rc_op : Type :=
+| RcSet (c : vec)          (* m.center = Point(...) *)
+| RcAdd (r : Rect)         (* m.add_rectangle(r) *)
+| RcPut (k : nat) (r : Rect)   (* rectangle k edited in place through its public attributes (center.x/.y, shape) *)
+| RcRecenter.              (* m.recenter_rectangles() *)
+Record rc_state : Type := mkRc { rc_centre : option vec; rc_rects : list Rect }.
+
+Fixpoint put_nth (k : nat) (r : Rect) (rs : list Rect) : list Rect :=
+  match rs, k with
+  | [], _ => []
+  | _ :: rs', O => r :: rs'
+  | r0 :: rs', S k' => r0 :: put_nth k' r rs'
+  end.
+
+Definition rc_step (op : rc_op) (st : rc_state) : res rc_state :=
+  match op with
+  | RcSet c => Ok (mkRc (Some c) (rc_rects st))
+  | RcAdd r => Ok (mkRc (rc_centre st) (rc_rects st ++ [r]))
+  | RcPut k r => Ok (mkRc (rc_centre st) (put_nth k r (rc_rects st)))
+  | RcRecenter =>
+      match rc_centre st with
+      | None => AssertFail            (* assert ... self.center is not None *)
+      | Some c =>
+          match recenter (rc_rects st) c with
+          | Ok rs => Ok (mkRc (Some c) rs)
+          | EmptyMin => EmptyMin | ZeroDiv => ZeroDiv | AssertFail => AssertFail
+          end
+      end
+  end.
+Fixpoint rc_run (ops : list rc_op) (st : rc_state) : res rc_state :=
+  match ops with
+  | [] => Ok st
+  | op :: rest => match rc_step op st with Ok st' => rc_run rest st' | e => e end
+  end.
